@@ -199,7 +199,7 @@ def run_history(kind: str, cap: int, auto_reload: bool, ns_key: bool, ops: list[
 def c_op(op: tuple) -> str:
     if op[0] == "L":
         _, name, ns, g, a = op
-        return f"Load {C.cstr(name)} {C.copt(C.cstr(ns) if ns is not None else None, 'str')} {g} {C.cbool(a)}"
+        return f"Load {C.cstr(name)} {C.copt(C.cstr(str(ns)) if ns is not None else None, 'str')} {g} {C.cbool(a)}"
     if op[0] == "M":
         return f"Modify {C.cstr(op[1])} {op[2]}"
     if op[0] == "D":
@@ -361,6 +361,25 @@ def main(chk: C.Check, build: C.Build) -> None:
             n = r.randint(3, 9 if not thorough else 30)
             body = [r.choice(al) if r.random() > 0.5 else r.choice([o for o in al if o[0] == "L"]) for _ in range(n)]
             hist.append(cfg + (number_contents(pre + body),))
+        # namespaces that are falsy in Python ("" and 0) are namespaces like any other
+        if cfg[3] and kind in ("dict", "nsdict", "choice"):
+            ns_aware = KINDS[kind][0]
+            for _ in range(12 if not thorough else 120):
+                falsy = r.choice(["", 0])
+                pre2 = list(pre)
+                if ns_aware:
+                    pre2 += [("M", f"{falsy}/{n_}", 20 + i) for i, n_ in enumerate(NAMES)]
+                body = []
+                for _ in range(r.randint(3, 8)):
+                    k = r.random()
+                    if k < 0.7:
+                        body.append(("L", r.choice(NAMES), r.choice([falsy, falsy, "u"]), r.choice([0, 1]), r.random() < 0.5))
+                    elif k < 0.9:
+                        keys = ([f"{x}/{n_}" for x in (falsy, "u") for n_ in NAMES] if ns_aware else list(NAMES))
+                        body.append(("M", r.choice(keys), 0))
+                    else:
+                        body.append(("F",))
+                hist.append(cfg + (number_contents(pre2 + body),))
 
     parts: list[tuple[str, str, str]] = []
     results = []
@@ -376,7 +395,7 @@ def main(chk: C.Check, build: C.Build) -> None:
         for op, s in zip(ops, res["steps"]):
             dist["steps"] += 1
             if op[0] == "L":
-                ck = f"{op[2]}/{op[1]}" if (nsk and op[2] is not None) else op[1]
+                ck = f"{op[2]}/{op[1]}" if (nsk and op[2] is not None) else op[1]  # f-string: 0 -> "0", "" -> ""
                 if ck in seen_keys and s["c"][0] == "L":
                     hit = True
                     dist["hit"] += 1
